@@ -22,6 +22,7 @@ import types
 import numpy as np
 
 from tools.common import q, unq, driver
+from tools import panel_v
 from tools.props import panel_common as pc
 
 TRUSTED = [
@@ -57,9 +58,15 @@ ID_FLANGELESS = 'C13-bay-flangeless-blade2d-raises'
 ID_B1_BASE_KM = 'C13-blade1d-base-kM-raises'
 ID_B1_NEEDS_BF = 'C13-blade1d-base-only-needs-bf'
 ID_B1_HB = 'C13-blade1d-hb-never-updated'
+ID_B1_MASS = 'C13-blade1d-flange-mass-coupling-doubled'
+ID_B1_TWIST = 'C13-blade1d-twist-stiffness-without-modulus'
+ID_T_BASE = 'C13-tstiff-base-integrated-outside-its-domain'
 ID_ASM_NOCONN = 'C13-assembly-no-connections-k0-raises'
 ID_ASM_FINT = 'C13-assembly-fint-raises'
-ID_BAY_SKIN_FORCES = 'C07-bay-skin-forces-raise'
+
+
+STATS = dict(oracle_checks=0, psd_checks=0, split_checks=0, placed_sum_checks=0, model_matrix_comparisons=0, model_vector_comparisons=0,
+             kernel_calls_recorded=0)
 
 
 # ---------------------------------------------------------------------------------------------- small helpers
@@ -85,24 +92,33 @@ def fin_sym(M):
     return U + np.triu(M, 1).T
 
 
-def rel(A, B):
+def rel(A, B, floor=0.):
+    """largest difference relative to the scale of the two arrays (or of `floor`: the size of the pieces that were added
+    up, so that a sum that cancels to rounding noise is compared with 0 sensibly)"""
     if A.shape != B.shape:
         return float('inf')
-    s = max(np.abs(A).max() if A.size else 0., np.abs(B).max() if B.size else 0., 1e-300)
+    s = max(np.abs(A).max() if A.size else 0., np.abs(B).max() if B.size else 0., floor, 1e-300)
     return float(np.abs(A - B).max() / s) if A.size else 0.
 
 
+class Misplaced(Exception):
+    pass
+
+
 def coo_text(M, row0, col0):
-    """local COO words of a recorded kernel result (global coo_matrix written at row0, col0)"""
+    """local COO words of a recorded kernel result (global coo_matrix written at row0, col0).  The kernels return
+    pre-allocated triplet arrays whose unused slots are (0, 0, 0.0): exact zeros are dropped (they denote nothing)."""
     if isinstance(M, (int, float)):
         return 'e'
     M = M.tocoo()
-    if M.nnz == 0:
-        return 'e'
     out = []
     for r, c, v in zip(M.row.tolist(), M.col.tolist(), M.data.tolist()):
+        if v == 0.:
+            continue
+        if r < row0 or c < col0:
+            raise Misplaced('a kernel asked to write at (%d, %d) wrote %r at (%d, %d)' % (row0, col0, v, r, c))
         out.append('%d %d %s' % (r - row0, c - col0, q(v)))
-    return ' '.join(out)
+    return ' '.join(out) if out else 'e'
 
 
 def vec_text(v):
@@ -326,6 +342,7 @@ def compare_asm(case, out, replies):
             return 'driver: %s on %s' % (rep, key)
         if key == 'fext':
             got = [float(unq(w)) for w in rep.split()]
+            STATS['model_vector_comparisons'] += 1
             if len(got) != len(out['fext']) or rel(np.array(got), out['fext']) > 1e-9:
                 return 'calc_fext: model concatenation differs from the package vector'
             continue
@@ -355,6 +372,8 @@ def compare_asm(case, out, replies):
         M = coo_reply_dense(f[3], size)
         if M is None:
             return '%s: model wrote outside the reported size' % key
+        STATS['model_matrix_comparisons'] += 1
+        STATS['kernel_calls_recorded'] += len(blocks)
         d = rel(M, out[key])
         if d > 1e-9:
             i, j = np.unravel_index(np.abs(M - out[key]).argmax(), M.shape)
@@ -426,6 +445,7 @@ def predicates_asm(case):
             bad.append((ident, 'calc_k0 of an assembly %s raises %s' % ('without connections' if not conn else '', exc)))
         else:
             want = fin_sym(placed('calc_k0')) + Kc
+            STATS['placed_sum_checks'] += 1
             d = rel(dense(k0), want)
             if d > 1e-9:
                 i, j = np.unravel_index(np.abs(dense(k0) - want).argmax(), want.shape)
@@ -437,6 +457,7 @@ def predicates_asm(case):
                 bad.append((None, 'calc_%s raises %s' % (name, exc)))
                 continue
             want = fin_sym(placed('calc_' + name))
+            STATS['placed_sum_checks'] += 1
             d = rel(dense(M), want)
             if d > 1e-9:
                 bad.append((None, 'calc_%s is not the sum of the placed stand-alone panel matrices: rel %.3e' % (name, d)))
@@ -487,6 +508,13 @@ def gen_stack(rng):
     return [rng.choice([0, 45, -45, 90]) for _ in range(rng.choice([1, 2, 4]))]
 
 
+def gen_flags(rng):
+    """edge flags: with m, n <= 3 EVERY Bardell function is an edge function, so most flags must be 1 (free) for the
+    matrices to be non-trivial"""
+    pfree = rng.choice([1., 0.85, 0.7])
+    return {f + e + d: float(rng.random() < pfree) for f in 'uvw' for e in ('1t', '1r', '2t', '2r') for d in 'xy'}
+
+
 def gen_bay(rng):
     curved = rng.random() < 0.45
     b = rng.uniform(0.4, 1.5)
@@ -498,7 +526,7 @@ def gen_bay(rng):
                 laminaprop=rng.choice(LP), mu=rng.choice([1300., 2700.]), cuts=cuts,
                 loads=dict(Nxx=rng.choice([0., -1., rng.uniform(-3, 3)]), Nyy=rng.choice([0., rng.uniform(-2, 2)]),
                            Nxy=rng.choice([0., rng.uniform(-2, 2)])),
-                flags={k: float(rng.choice([0, 1])) for k in ('w1rx', 'w2rx', 'w1ry', 'w2ry', 'u1tx', 'v2ty')},
+                flags=gen_flags(rng),
                 stiffs=[], forces_skin=[])
     types = []
     for t in ('b1', 'b2', 't'):
@@ -511,7 +539,8 @@ def gen_bay(rng):
                  bstack=gen_stack(rng), fstack=gen_stack(rng), bplyt=rng.choice([1.25e-4, 5e-4]),
                  fplyt=rng.choice([1.25e-4, 5e-4]), lp=rng.choice(LP), base=True, flange=True,
                  mf=rng.randint(1, 3), nf=rng.randint(1, 3), mb=rng.randint(1, 3), nb=rng.randint(1, 3),
-                 Fx=rng.choice([0., -10., rng.uniform(-50, 50)]), forces_flange=[], forces_base=[])
+                 Fx=rng.choice([0., -10., rng.uniform(-50, 50)]), forces_flange=[], forces_base=[],
+                 fflags=(gen_flags(rng) if rng.random() < 0.7 else None))
         if t in ('b1', 'b2'):
             which = rng.random()
             if t == 'b1':
@@ -524,8 +553,8 @@ def gen_bay(rng):
         if t == 't' and rng.random() < 0.4:
             s['forces_base'] = [[rng.uniform(0, a), rng.uniform(0, s['bb']), 0., rng.uniform(-1, 1), rng.uniform(-1, 1)]]
         case['stiffs'].append(s)
-    if rng.random() < 0.08:
-        case['forces_skin'] = [[rng.uniform(0, a), rng.uniform(0, b), 0., 0., 1.]]
+    if rng.random() < 0.3:
+        case['forces_skin'] = [[rng.uniform(0, a), rng.uniform(0, b), rng.uniform(-1, 1), rng.uniform(-1, 1), 1.]]
     need = sorted(set(s['ys'] for s in case['stiffs'] if 0. < s['ys'] < b))
     extra = sorted(rng.uniform(0.08, 0.92) * b for _ in range(rng.choice([0, 1, 2, 4])))
     case['alt_cuts'] = sorted(set(need + extra))
@@ -570,10 +599,14 @@ def build_bay(case, cuts=None, omit=None):
             if s['flange']:
                 o.flange.Nxx = s['Fx'] / 10.
                 o.flange.forces = [list(f) for f in s['forces_flange']]
+                for kf, vf in (s.get('fflags') or {}).items():
+                    setattr(o.flange, kf, vf)
         else:
             o = pc.quiet(bay.add_tstiff2d, mb=s['mb'], nb=s['nb'], mf=s['mf'], nf=s['nf'], Nxxf=s['Fx'] / 10., **kw)
             o.flange.forces = [list(f) for f in s['forces_flange']]
             o.base.forces = [list(f) for f in s['forces_base']]
+            for kf, vf in (s.get('fflags') or {}).items():
+                setattr(o.flange, kf, vf)
         objs.append(o)
     bay.forces_skin = [list(f) for f in case['forces_skin']]
     return bay, objs
@@ -593,6 +626,17 @@ def bay_ranges(case, bay):
     return out
 
 
+def skin_fext(case, bay):
+    """stand-alone force vector of the skin: a skin panel (it carries the bay's series) loaded with the bay's skin forces"""
+    p = bay.panels[0]
+    old = p.forces, p.forces_inc
+    p.forces, p.forces_inc = [list(f) for f in case['forces_skin']], []
+    try:
+        return np.array(np.asarray(pc.quiet(p.calc_fext, silent=True)), dtype=float)
+    finally:
+        p.forces, p.forces_inc = old
+
+
 def classify_bay_exc(case, exc, what, omit=None):
     stiffs = [s for k, s in enumerate(case['stiffs']) if k != omit]
     if any(s['type'] == 'b2' and not s['flange'] for s in stiffs) and 'AttributeError' in exc and "'NoneType' object has no attribute" in exc \
@@ -600,8 +644,6 @@ def classify_bay_exc(case, exc, what, omit=None):
         return ID_FLANGELESS
     if what == 'kM' and any(s['type'] == 'b1' and s['base'] for s in stiffs) and exc.startswith('KeyError: None'):
         return ID_B1_BASE_KM
-    if what == 'fext' and case['forces_skin'] and 'A Panel object must be passed' in exc:
-        return ID_BAY_SKIN_FORCES
     return None
 
 
@@ -783,6 +825,7 @@ def compare_bay(case, out, replies):
             if rep.strip() == 'none':
                 return 'calc_fext: model raises, package returns a vector'
             got = np.array([float(unq(w)) for w in rep.split()])
+            STATS['model_vector_comparisons'] += 1
             if len(got) != len(out['fext']) or rel(got, out['fext']) > 1e-9:
                 return 'calc_fext: model concatenation differs from the package vector'
             continue
@@ -801,6 +844,8 @@ def compare_bay(case, out, replies):
         M = coo_reply_dense(f[2], size)
         if M is None:
             return '%s: model wrote outside the reported size' % what
+        STATS['model_matrix_comparisons'] += 1
+        STATS['kernel_calls_recorded'] += len(seq)
         d = rel(M, out[what])
         if d > 1e-9:
             i, j = np.unravel_index(np.abs(M - out[what]).argmax(), M.shape)
@@ -821,10 +866,13 @@ def standalone_sum(case, bay, what):
     skin = ranges[0][1]
     S = np.zeros((total, total))
     attr = what
+    piece = [0.]
     with no_gc():
         pc.quiet(bay._rebuild)
         for p in bay.panels:
-            S[:skin, :skin] += dense(pc.quiet(getattr(p, 'calc_' + what), size=skin, row0=0, col0=0, silent=True, finalize=False), skin)
+            Mp = dense(pc.quiet(getattr(p, 'calc_' + what), size=skin, row0=0, col0=0, silent=True, finalize=False), skin)
+            piece.append(np.abs(Mp).max() if Mp.size else 0.)
+            S[:skin, :skin] += Mp
         for s in bay.bladestiff1ds:
             pc.quiet(getattr(s, 'calc_' + what), size=skin, row0=0, col0=0, silent=True, finalize=False)
             S[:skin, :skin] += dense(getattr(s, attr), skin)
@@ -842,7 +890,7 @@ def standalone_sum(case, bay, what):
             M = dense(getattr(s, attr), loc)
             idx = np.concatenate([np.arange(skin), start[('tb', id(s))] + np.arange(bs + fs)]).astype(int)
             S[np.ix_(idx, idx)] += M
-    return fin_sym(S), total
+    return fin_sym(S), total, max(piece)
 
 
 def embed_without(case, bay_w, objs_w, bay_o, objs_o, K_o):
@@ -868,6 +916,47 @@ def embed_without(case, bay_w, objs_w, bay_o, objs_o, K_o):
     E = np.zeros((tw, tw))
     E[np.ix_(idx, idx)] = K_o
     return E
+
+
+def oracle_checks(ctx, case, bay, G, rng, PIECE):
+    """energy-definition oracle (exact Bardell polynomials, tools/panel_v.py) for the components that integrate over a
+    sub-domain: the skin panels together must give the energy of the WHOLE skin; the base of a T stiffener must give the
+    energy of the base strip"""
+    bad = []
+    skin = bay_ranges(case, bay)[0][1]
+    params = dict(case['loads'])
+    if bay.panels and rng.random() < ctx.scale(0.35, 0.5):
+        p0 = bay.panels[0]
+        for what in KINDS:
+            if G.get(what) is None:
+                continue
+            S = np.zeros((skin, skin))
+            with no_gc():
+                for p in bay.panels:
+                    S += dense(pc.quiet(getattr(p, 'calc_' + what), size=skin, row0=0, col0=0, silent=True, finalize=False), skin)
+            prm = dict(params, delta=p0.offset)
+            want = panel_v.oracle_matrix(bay.model, p0, what, prm, skin, 0, 0, None)
+            STATS['oracle_checks'] += 1
+            d = rel(fin_sym(S), fin_sym(want), PIECE.get(what, 0.))
+            if d > 1e-8:
+                bad.append((None, 'the skin panels cut at %r do not add up to the %s of the whole skin (energy oracle): rel %.3e' % (
+                    case['cuts'], what, d)))
+    for s in bay.tstiff2ds[:1]:
+        base = s.base
+        sz = pc.quiet(base.get_size)
+        with no_gc():
+            K = fin_sym(dense(pc.quiet(base.calc_k0, size=sz, row0=0, col0=0, silent=True, finalize=False), sz))
+        own = fin_sym(panel_v.oracle_matrix(base.model, base, 'k0', {}, sz, 0, 0, None))
+        STATS['oracle_checks'] += 1
+        d = rel(K, own)
+        if d > 1e-8:
+            asis = fin_sym(panel_v.oracle_matrix(base.model, base, 'k0', {}, sz, 0, 0, (base.y1, base.y2)))
+            ident = ID_T_BASE if rel(K, asis) < 1e-8 else None
+            bad.append((ident, 'the stiffness of the base of a T stiffener (width bb=%.4g at ys=%.4g) is not the strain energy of the '
+                               'base strip: rel %.3e; it is the integral over eta in [%.3f, %.3f] of the base\'s own series '
+                               '(y1, y2 given in bay coordinates to a panel of width bb)' % (
+                                   base.b, s.ys, d, 2 * base.y1 / base.b - 1, 2 * base.y2 / base.b - 1)))
+    return bad
 
 
 def predicates_bay(ctx, case, rng):
@@ -897,28 +986,31 @@ def predicates_bay(ctx, case, rng):
                                       'instead of h/2 + hb + bf/2' % (s.hb, hb)))
                 break
     G = {}
+    PIECE = {}
     for what in KINDS:
         G[what], e = bay_global(case, bay, what)
         if e:
             bad.append((classify_bay_exc(case, e, what), 'calc_%s raises %s' % (what, e)))
             continue
-        want, total = standalone_sum(case, bay, what)
-        d = rel(G[what], want)
+        want, total, PIECE[what] = standalone_sum(case, bay, what)
+        STATS['placed_sum_checks'] += 1
+        d = rel(G[what], want, PIECE[what])
         if d > 1e-9:
             i, j = np.unravel_index(np.abs(G[what] - want).argmax(), want.shape) if G[what].shape == want.shape else (-1, -1)
             bad.append((None, 'calc_%s is not the finalised sum of the stand-alone component matrices placed at their ranges: '
                               'rel %.3e at [%d,%d] (shape %r vs %r)' % (what, d, i, j, G[what].shape, want.shape)))
         if np.abs(G[what] - G[what].T).max() > 0:
             bad.append((None, 'calc_%s is not symmetric' % what))
+    bad += oracle_checks(ctx, case, bay, G, rng, PIECE)
     # force vector
     v, e = bay_global(case, bay, 'fext')
     if e:
         bad.append((classify_bay_exc(case, e, 'fext'), 'calc_fext raises %s' % e))
     else:
-        skin = bay_ranges(case, bay)[0][1]
-        parts = [np.zeros(skin)]
+        parts = [skin_fext(case, bay)]
         for s in bay.bladestiff2ds:
-            parts.append(np.asarray(pc.quiet(s.flange.calc_fext, silent=True)))
+            if s.flange is not None:
+                parts.append(np.asarray(pc.quiet(s.flange.calc_fext, silent=True)))
         for s in bay.tstiff2ds:
             parts.append(np.asarray(pc.quiet(s.base.calc_fext, silent=True)))
             parts.append(np.asarray(pc.quiet(s.flange.calc_fext, silent=True)))
@@ -935,7 +1027,8 @@ def predicates_bay(ctx, case, rng):
             bad.append((classify_bay_exc(case, e, what), 'calc_%s of the same bay with the skin cut at %r raises %s' % (
                 what, case['alt_cuts'], e)))
             continue
-        d = rel(G[what], M2)
+        d = rel(G[what], M2, PIECE.get(what, 0.))
+        STATS['split_checks'] += 1
         if d > 1e-9:
             bad.append((None, 'calc_%s changes when the skin is cut at %r instead of %r: rel %.3e' % (
                 what, case['alt_cuts'], case['cuts'], d)))
@@ -954,12 +1047,21 @@ def predicates_bay(ctx, case, rng):
                     continue
                 D = G[what] - embed_without(case, bay, objs, bay_o, objs_o, Ko)
                 sc = max(np.abs(D).max(), 1e-300)
-                if np.abs(D - D.T).max() > 1e-12 * sc:
+                if np.abs(D - D.T).max() > 1e-12 * sc + 1e-13 * np.abs(G[what]).max():
                     bad.append((None, 'contribution of stiffener %d (%s) to %s is not symmetric' % (k, case['stiffs'][k]['type'], what)))
                     continue
                 w = np.linalg.eigvalsh((D + D.T) / 2)
-                if w.min() < -1e-9 * max(abs(w).max(), 1e-300):
-                    bad.append((None, 'contribution of stiffener %d (%s, base=%s, flange=%s) to %s is not positive semi-definite: '
+                STATS['psd_checks'] += 1
+                # D is a difference of two global matrices: its rounding noise scales with THEIR entries
+                if w.min() < -(1e-9 * max(abs(w).max(), 1e-300) + 1e-13 * np.abs(G[what]).max()):
+                    st = case['stiffs'][k]
+                    ident = None
+                    if st['type'] == 'b1' and st['flange']:
+                        if what == 'kM':
+                            ident = ID_B1_MASS
+                        elif any(abs(ang) % 90 != 0 for ang in st['fstack']):
+                            ident = ID_B1_TWIST
+                    bad.append((ident, 'contribution of stiffener %d (%s, base=%s, flange=%s) to %s is not positive semi-definite: '
                                       'min eigenvalue %.3e, max %.3e' % (k, case['stiffs'][k]['type'], case['stiffs'][k]['base'],
                                                                          case['stiffs'][k]['flange'], what, w.min(), w.max())))
     return bad
@@ -967,12 +1069,10 @@ def predicates_bay(ctx, case, rng):
 
 def bay_fext_line(case, out):
     bay = out['bay']
-    import compmech.panel.modelDB as pm
-    skin = pm.db[bay.model]['num'] * bay.m * bay.n
     b2 = ' ; '.join('-' if s.flange is None else vec_text(pc.quiet(s.flange.calc_fext, silent=True)) for s in bay.bladestiff2ds)
     ts = ' ; '.join('%s : %s' % (vec_text(pc.quiet(s.base.calc_fext, silent=True)), vec_text(pc.quiet(s.flange.calc_fext, silent=True)))
                     for s in bay.tstiff2ds)
-    return 'C13 bayfext | %s | %s | %s' % (vec_text(np.zeros(skin)), b2, ts)
+    return 'C13 bayfext | %s | %s | %s' % (vec_text(skin_fext(case, bay)), b2, ts)
 
 
 # ============================================================================================== driver of the check
@@ -990,7 +1090,8 @@ def corpus():
         if len(b['cuts']) >= 1 and not b['forces_skin']:
             break
     base = dict(type='b2', ys=b['cuts'][0], bb=0.1 * b['b'], bf=0.08 * b['b'], bstack=[0, 90], fstack=[0, 90], bplyt=1.25e-4,
-                fplyt=1.25e-4, lp=LP[0], base=True, flange=False, mf=2, nf=2, mb=2, nb=2, Fx=0., forces_flange=[], forces_base=[])
+                fplyt=1.25e-4, lp=LP[0], base=True, flange=False, mf=2, nf=2, mb=2, nb=2, Fx=0., forces_flange=[], forces_base=[],
+                fflags=None)
     b1 = dict(b, stiffs=[dict(base)], forces_skin=[])
     b1['alt_cuts'] = [b['cuts'][0]]
     out.append(b1)                                       # flange-less 2-D blade
@@ -1002,7 +1103,7 @@ def corpus():
     out.append(b3)                                       # 1-D blade base only, no bf
     b4 = dict(b, stiffs=[], forces_skin=[[0.3 * b['a'], 0.4 * b['b'], 0., 0., 1.]])
     b4['alt_cuts'] = []
-    out.append(b4)                                       # skin force (C07)
+    out.append(b4)                                       # skin force
     return out
 
 
@@ -1014,20 +1115,26 @@ def run_cases(ctx, cases, rng):
         ctx.evaluations += 1
         if case['kind'] == 'asm':
             out = record_asm(case)
-            ls = asm_lines(case, out)
+            try:
+                ls = asm_lines(case, out)
+            except Misplaced as e:
+                ls = []
+                out['misplaced'] = str(e)
         else:
             out = record_bay(case)
             ls = []
             if 'bay' in out:
-                ls = bay_lines(case, out)
+                try:
+                    ls = bay_lines(case, out)
+                except Misplaced as e:
+                    out['misplaced'] = str(e)
                 ls.append(('sizeonly', bay_size_line(case, out['bay'])))
                 v, e = bay_global(case, out['bay'], 'fext')
                 if e:
                     out['exc']['fext'] = e
                 else:
                     out['fext'] = v
-                if not case['forces_skin']:
-                    ls.append(('fext', bay_fext_line(case, out)))
+                ls.append(('fext', bay_fext_line(case, out)))
         todo.append((case, out, len(lines), len(ls), ls))
         lines += [l for _, l in ls]
     replies = driver(lines, pid='C13') if lines else []
@@ -1042,6 +1149,7 @@ def run_cases(ctx, cases, rng):
             props = predicates_bay(ctx, case, rng)
             d = compare_bay(case, out, reps) if 'bay' in out else None
         out.pop('bay', None)
+        d = out.get('misplaced') or d
         real = False
         for ident, text in props:
             if ctx.violation('C13 fails on the implementation: ' + text, dict(case=case), identity=ident):
@@ -1102,6 +1210,7 @@ def correspondence(ctx):
         if k % 100 == 0:
             ctx.log('cases %d/%d' % (min(k + chunk, len(cases)), len(cases)))
     ctx.cov['input_distribution'] = dist
+    ctx.cov['checks_made'] = dict(STATS)
     ctx.cov['modelled_functions'] = ['PanelAssembly.__init__', 'get_size', 'get_k0_conn (placement)', 'calc_k0', 'calc_kG0',
                                      'calc_kM', 'calc_kT', 'calc_fext', 'StiffPanelBay.get_size', 'calc_k0', 'calc_kG0',
                                      'calc_kM', 'calc_fext', 'BladeStiff1D/BladeStiff2D/TStiff2D.calc_k0/kG0/kM (placement)',
